@@ -61,6 +61,13 @@ type invocation struct {
 	format    string // jd patch merge
 	precision float64
 	color     bool
+	keyStyle  int
+}
+
+// keysArg is the -setkeys argument: the keys may carry blanks around them
+// (the README's "-setkeys a, b" form; they are trimmed).
+func (iv invocation) keysArg() string {
+	return []string{"id", "id", " id", "id "}[iv.keyStyle%4]
 }
 
 func (iv invocation) flags() []flagSpec {
@@ -77,7 +84,7 @@ func (iv invocation) flags() []flagSpec {
 	case "mset":
 		f = append(f, flagSpec{name: "mset"})
 	case "setkeys":
-		f = append(f, flagSpec{"setkeys", "id", true, false})
+		f = append(f, flagSpec{"setkeys", iv.keysArg(), true, false})
 	}
 	if iv.format != "jd" {
 		f = append(f, flagSpec{"f", iv.format, true, false})
@@ -97,6 +104,7 @@ func genInvocation(c *Chooser) invocation {
 		iv.bin, iv.v1 = "top", true
 	}
 	iv.yaml = c.Chance(1, 4)
+	iv.keyStyle = c.Int(4)
 	iv.arrays = []string{"list", "list", "list", "set", "mset", "setkeys"}[c.Int(6)]
 	iv.format = []string{"jd", "jd", "patch", "merge"}[c.Int(4)]
 	if iv.arrays == "list" && c.Chance(1, 8) {
@@ -212,7 +220,8 @@ func genSession14(c *Chooser) Session {
 				out = an // the output overwrites an input: everything is read before anything is written
 			}
 		}
-		s.Procs = []ProcSpec{diffProc(out, iv.format == "jd" && c.Chance(1, 4))}
+		// -color only means something for the native format; with the others it must change nothing
+		s.Procs = []ProcSpec{diffProc(out, iv.format == "jd" && c.Chance(1, 4) || iv.format != "jd" && c.Chance(1, 8))}
 	case 1: // S4 round trip
 		s.Kind = "roundtrip"
 		carrier := c.Int(3) // 0 -o file, 1 captured stdout via pipe, 2 stdout to file (shell redirect)
